@@ -61,6 +61,7 @@ class Prop:
             "forged_datagrams_injected": sum(c["info"].get("forged", 0) for c in cases),
             "runs_with_isolated_receive_errors": sum(1 for c in cases if c["cfg"].get("recv_errs")),
             "runs_with_several_flushers": sum(1 for c in cases if c["cfg"].get("flushers")),
+            "runs_with_uapi_reapply_flushers_only": sum(1 for c in cases if c["cfg"].get("flusher_kind") == "uapi"),
             "runs_with_down_up_during_flood": sum(1 for c in cases if c["cfg"].get("down_up_cycles")),
             "runs_restart_race_hook": sum(1 for c in cases if c["cfg"].get("restart_race")),
             "runs_crashed": sum(1 for c in cases if c["info"].get("crash")),
@@ -121,6 +122,8 @@ class Prop:
         info = case.get("info") or {}
         if info.get("error"):
             return "pipeline-could-not-be-set-up"
+        if info.get("tun_reader_stalled"):
+            return "outbound-stalled-tun-reader"
         if info.get("cycles_hung") or info.get("flushers_hung") or info.get("remove_hung"):
             return "device-crashed-or-hung-during-run"
         if info.get("restart_returned_while_worker_held_batch"):
